@@ -59,6 +59,30 @@ func c04CheckPCR(c c04PCRCase) engine.Result {
 		for ext := uint64(0); ext < 300; ext++ {
 			v := c.Base*300 + ext
 			want := ref.PCRBytes(v)
+			// prior contents that already DECODE to the value without being its canonical bytes: the alias
+			// (base-1, ext+300) when the 9-bit extension can hold it, and the canonical bytes with the
+			// reserved bits cleared. The write must still produce the canonical bytes.
+			var related [][]byte
+			if c.Base >= 1 && ext+300 <= 511 {
+				var w ref.BitWriter
+				w.Put(33, c.Base-1)
+				w.Ones(6)
+				w.Put(9, ext+300)
+				related = append(related, w.Out())
+			}
+			{
+				b := append([]byte{}, want...)
+				b[4] &^= 0x7E
+				related = append(related, b)
+			}
+			for _, prior := range related {
+				buf := append(append([]byte{}, prior...), 0x33, 0x33, 0x33)
+				res.Evals++
+				gots.InsertPCR(buf, v)
+				if !bytes.Equal(buf[:6], want) {
+					res.Failf("InsertPCR|bytes-over-equivalent-prior", "pcr %d over prior % x (decodes to the same value): wrote % x want % x", v, prior, buf[:6], want)
+				}
+			}
 			for _, fill := range c04Fills {
 				buf := bytes.Repeat([]byte{fill}, 9)
 				res.Evals++
@@ -134,6 +158,21 @@ func c04CheckPTS(c c04PTSCase) engine.Result {
 			}
 			if got := pes.ExtractTime(buf); got != v {
 				res.Failf("PTS|round-trip-pes", "pts %#x read back as %#x (pes.ExtractTime)", v, got)
+			}
+		}
+		// prior content that already decodes to the value but has its marker bits clear
+		{
+			buf := append(ref.PTSBytes(0x2, v), 0x44, 0x44)
+			buf[0] &^= 0x01
+			buf[2] &^= 0x01
+			buf[4] &^= 0x01
+			res.Evals++
+			gots.InsertPTS(buf, v)
+			for i := 0; i < 5; i++ {
+				if buf[i]&c04PTSMarkerMask[i] != c04PTSMarkerMask[i] || buf[i]&c04PTSValueMask[i] != want[i]&c04PTSValueMask[i] {
+					res.Failf("InsertPTS|bytes-over-equivalent-prior", "pts %#x over its own encoding with clear marker bits: wrote % x", v, buf[:5])
+					break
+				}
 			}
 		}
 		// decode is independent of prefix and marker bits; both decoders agree on every input
@@ -240,6 +279,35 @@ func c04CheckE2E(c c04E2ECase) engine.Result {
 					}
 				}
 			}
+			// the same value installed by copying a whole adaptation field from another packet
+			if c.Kind == "af-pcr" {
+				srcPkt := packet.Packet(ref.BuildPacket(ref.Header{Sync: 0x47, PID: 0x21, AFC: 2}, &ref.AF{}, 183, nil))
+				src, _ := srcPkt.AdaptationField()
+				if src.SetHasPCR(true) != nil || src.SetPCR(c.V) != nil {
+					res.Failf("SetPCR|error", "source field")
+					return
+				}
+				for _, afLen := range []int{6, 7, 8, 20} {
+					payload := bytes.Repeat([]byte{0xA5}, 183-afLen)
+					h := ref.Header{Sync: 0x47, PID: 0x101, AFC: 3, CC: 6}
+					dst := packet.Packet(ref.BuildPacket(h, &ref.AF{}, afLen, payload))
+					before := dst
+					res.Evals++
+					err := dst.SetAdaptationField(src)
+					if afLen < 7 {
+						if err == nil || dst != before {
+							res.Failf("SetAdaptationField|too-large|accepted", "a field with a PCR (7 bytes) was copied into adaptation_field_length %d", afLen)
+						}
+						continue
+					}
+					want := packet.Packet(ref.BuildPacket(h, &ref.AF{PCR: ref.PCRBytes(c.V)}, afLen, payload))
+					af, _ := dst.AdaptationField()
+					got, gerr := af.PCR()
+					if err != nil || gerr != nil || got != c.V || dst != want {
+						res.Failf("SetAdaptationField|PCR-read-back", "afLen %d: copied PCR %d reads back %d (err %v/%v)", afLen, c.V, got, err, gerr)
+					}
+				}
+			}
 		case "pes-pts", "pes-pts-dts":
 			for _, sid := range []byte{0xE0, 0xC0, 0xBD} {
 				for _, extra := range []int{0, 2} {
@@ -299,7 +367,7 @@ func init() {
 		Scenarios: []engine.ScenarioRunner{
 			&engine.Enum[c04PCRCase]{
 				Name: "pcr-codec",
-				Rule: "case = one 33-bit PCR base from {<=2 bits set, complements, alternating patterns} plus every 2^18-th base (thorough: every 2^13-th); Check runs all 300 extensions x 4 prior-content fills (exact bytes vs. bit-writer layout, 3 guard bytes, round trip) and every reserved-bit flip on decode; non-trivial = each distinct (base, ext)",
+				Rule: "case = one 33-bit PCR base from {<=2 bits set, complements, alternating patterns} plus every 2^18-th base (thorough: every 2^13-th); Check runs all 300 extensions x 4 prior-content fills + priors that already decode to the value (alias base-1/ext+300, reserved bits clear) (exact bytes vs. bit-writer layout, 3 guard bytes, round trip) and every reserved-bit flip on decode; non-trivial = each distinct (base, ext)",
 				Gen: func(r *engine.Run, emit func(c04PCRCase)) {
 					stride := uint64(1) << 18
 					if r.Thorough() {
